@@ -95,12 +95,18 @@ def z_some_violated(tl, env, tol=TOL):
     return z3.Or(*[z_violated(t, env, tol) for t in ts]) if ts else z3.BoolVal(False)
 
 
+def _budget(ms):
+    from pyvc.core import budget_ms
+
+    return budget_ms(ms)
+
+
 def z_check(formulas, env, timeout_ms=20000):
     """sat -> model dict name->Fraction ; unsat -> None ; unknown -> 'unknown'"""
     import z3
 
     s = z3.Solver()
-    s.set("timeout", timeout_ms)
+    s.set("timeout", _budget(timeout_ms))
     for f in formulas:
         s.add(f)
     for b in env.box():
@@ -134,7 +140,7 @@ def exact_opt(tl, objective, maximize):
 
     env = Env()
     o = z3.Optimize()
-    o.set("timeout", 20000)
+    o.set("timeout", _budget(20000))
     for t in tl.terms:
         o.add(z_holds(t, env))
     obj = z3.Sum([zr(c) * env[n] for n, c in objective.items()] + [z3.RealVal(0)])
